@@ -32,6 +32,42 @@ CHECKS.update({
    text="Rounds of 2-12 goroutines building different programs with own Package/Config/importer under -race; every race report is a violation; each package's concurrent output must equal its sequential output.",
    note="trusted: Go race detector (reports only races that occurred); schedules are those the scheduler and Gosched injection produced", ref="DESIGN.md §2 C18"),
 })
+CHECKS.update({
+ "C01": dict(level="exploration", technique="runtime monitoring with go/parser + go/types as oracle on every accepted build: complete atom catalogues (thorough) / stratified samples (quick) plus generated, fault-injected, multi-file and corpus programs",
+   text="Every build the builder accepts is printed, re-parsed and type-checked with the same importer objects; the accepted-but-wrong region is searched by complete catalogues of one-statement programs (operators, shifts, conversions, assignment contexts, comparisons, builtins, access forms) in two configurations and by programs with one injected fault.",
+   note="trusted: go/types of the running toolchain. The pinned tree has many recorded soundness gaps (known/C01.tsv, listed input by input).", ref="DESIGN.md §2 C01"),
+ "C02": dict(level="exploration", technique="differential runtime monitoring: canonical typed dump (go/types-resolved AST) of the source vs of the emitted package, on valid atoms and generated/corpus programs",
+   text="For every program go/types accepts, the builder must report no error and the canonical typed dump of its output must equal the source's (declarations, nesting, operators, operands, identifier bindings; formatting, parentheses, import names excluded).",
+   note="trusted: go/types identifier resolution on both sides; front end validated on the repository's corpus", ref="DESIGN.md §2 C02"),
+ "C03": dict(level="exploration", technique="runtime monitoring of reported types at the API boundary vs context-free go/types typing (types.Eval) of the corresponding emitted node",
+   text="After every completed sub-expression the type exposed by the builder is recorded and compared, through the node correspondence given by equal canonical dumps, with the type go/types assigns to the emitted node; cross-universe identity, untyped kinds preserved.",
+   note="trusted: go/types (types.Eval for context-free typing); correspondence exists only for programs whose dumps are equal (others are C01/C02 matters)", ref="DESIGN.md §2 C03"),
+ "C04": dict(level="exploration", technique="runtime monitoring of folded constants (Elem.CVal) vs go/types constant values, exact comparison with go/constant",
+   text="Presence and exact value of the builder's compile-time values are compared with go/types' on the complete operator x constant-operand catalogues (boundary values, > 64 bit, shifts with extreme counts, constant builtins, conversions) and on generated nested constant expressions; constant expressions Go rejects must not be folded.",
+   note="trusted: go/constant arithmetic, go/types' decision of what is constant", ref="DESIGN.md §2 C04"),
+ "C05": dict(level="exploration", technique="exhaustive predicate grid (AssignableTo/AssignableConv/ComparableTo/ConvertibleTo/Default) against go/types verdicts on generated one-statement programs, plus construct-level agreement on the assign/compare/conversion catalogues",
+   text="The public predicates are evaluated on a closed universe of 60 types x 67 boundary constants (complete in both tiers, symmetry checked in both argument orders) and compared with Go's verdict for `var _ T = v`, `_ = v == w`, `_ = T(v)`; the same pairs are asked through 8 constructs and must get Go's verdict.",
+   note="trusted: go/types; default configuration (documented extensions of the relation excluded)", ref="DESIGN.md §2 C05"),
+ "C06": dict(level="exploration", technique="runtime monitoring of overload resolution against an executable model (go/types applicability of each concrete candidate in index order) with twin builds for residue",
+   text="Random overload families imported as Go source; for 41 argument lists x 4 callee forms the emitted callee must be the first candidate Go accepts, the emitted file must equal the file emitted for a direct call of that candidate, and Recorder.Call must name it.",
+   note="trusted: go/types; generic function values as arguments and variadic generic candidates are decided in C07", ref="DESIGN.md §2 C06"),
+ "C07": dict(level="exploration", technique="differential runtime monitoring of generic calls/references against go/types inference (accept/reject, Info.Instances, instantiated types) on a complete catalogue",
+   text="4.8k uses of 19 generic functions and 3 generic types (inferred, explicit, partial, function values, constraint violations, operations on type-parameter values) — accept/reject, type arguments and reported instantiated types must equal go/types'.",
+   note="trusted: go/types inference of the running toolchain; recorded findings listed statement by statement", ref="DESIGN.md §2 C07"),
+ "C08": dict(level="exploration", technique="differential runtime monitoring of selector resolution on random embedding graphs against go/types (accept/reject, selected member identified by its distinct type, Recorder.Member)",
+   text="Random struct/interface graphs with colliding names; 4 roots x 15 names x 15 operand forms per graph; every member has its own type so the reported type identifies the chosen member.",
+   note="trusted: go/types selector rules. The member-lookup algorithm has recorded design-level findings identified by (operand form, Go verdict class, wrong behaviour).", ref="DESIGN.md §2 C08"),
+ "C09": dict(level="exploration", technique="runtime monitoring of API-built import histories: every written file re-parsed and re-checked; import names, import sets and the package each qualified reference resolves to compared with the history",
+   text="Histories with equal-base-name packages, declarations named like imports in every scope kind, discarded references, ForceImport and file switches; import names must be unique and distinct from all declared identifiers, the resolved references must be exactly those the history made.",
+   note="trusted: go/types Info.Uses; recorded finding for the reserved _autoGo_ prefix", ref="DESIGN.md §2 C09"),
+ "C11": dict(level="exploration", technique="runtime monitoring by execution: API-built extension scenarios are type-checked, compiled and run side by side with an independently written plain-Go reference program; printed results compared per scenario",
+   text="Scenario table (builtin-type methods x receiver forms, map/any members, bool casts, optional parameters, aliases/auto-properties, inline closures with side-effecting arguments, T(), units, big-number literals and operators): phase 1 type-checks each lowering, phase 2 executes all of them against the reference.",
+   note="trusted: the Go toolchain (compile + run), math/big for expected big-number values; the documented meaning is encoded in the scenario table", ref="DESIGN.md §2 C11"),
+ "C17": dict(level="exploration", technique="runtime monitoring in isolated worker processes: panic classification (runtime.Error vs reported error), journal attribution of fatal errors, logical resource watchdog (heap bytes, process CPU)",
+   text="Every catalogue atom (valid or not) under three configurations, one journaled case per atom; recovered panics whose value is a runtime.Error, worker deaths and resource overruns are violations.",
+   note="trusted: the classification of panic values by dynamic type; limits 3 GiB heap / 60 CPU-s per atom (three orders of magnitude above normal)", ref="DESIGN.md §2 C17"),
+})
+PENDING = set()  # checks implemented but not yet claimed
 ENGINES = [
  {"name":"h","path":"internal/h","serves_properties":sorted(CHECKS),"kind_free_text":"supervisor/worker isolation, journals, resource watchdog, known-finding matcher, evidence writer"},
  {"name":"ref","path":"internal/ref","serves_properties":sorted(CHECKS),"kind_free_text":"reference oracles: go/types wrappers, shared importer, canonical typed dump, cross-universe type identity"},
@@ -45,7 +81,7 @@ m={"version":1,"setup_cmd":"./run.sh --setup",
  "notes":"All checks: ./run.sh <Cxx> <quick|thorough>; VERIF_SEED selects samples/generators. Known findings: KNOWN_FINDINGS.txt + known/*.tsv. Replay: ./run.sh --replay <file>."}
 for p in props:
     id=p['id']
-    if id in CHECKS:
+    if id in CHECKS and id not in PENDING:
         c=CHECKS[id]
         m['checks'].append({"property_id":id,"quick_cmd":f"./run.sh {id} quick","thorough_cmd":f"./run.sh {id} thorough","evidence_file":f"/verif/evidence/{id}.json",
           "replay_cmd_template":"./run.sh --replay {path}","engine":"h","level_claimed":{"category":c['level'],"text":c['text'],"design_ref":c['ref']},"level_note":c['note'],"technique":c['technique']})
